@@ -35,14 +35,20 @@ def shape_blog(cfg):
 
         # excl_labels: the many-to-many relationship is excluded on both of its sides: no association version table
         excl = ['x'] + (['notes'] if cfg.get('excl_notes') else []) + (['labels'] if cfg.get('excl_labels') else [])
-        if cfg.get('mgr_excl'):
+        art_bases = (Base,)
+        if cfg.get('mixin_excl3'):
+            # the exclusion is declared two levels up (Top), the class in between (Mid) has a __versioned__ of its own
+            Top = type('Top', (object,), {'__versioned__': {'exclude': list(excl)}})
+            Mid = type('Mid', (Top,), {'__versioned__': {}})
+            art_bases = (Mid, Base)
+        if cfg.get('mgr_excl') or cfg.get('mixin_excl3'):
             art_extra = {}
         elif cfg.get('include_x'):
             art_extra = {'exclude': excl, 'include': ['x']}
         else:
             art_extra = {'exclude': excl}
 
-        Article = type('Article', (Base,), dict(
+        Article = type('Article', art_bases, dict(
             __tablename__='article',
             id=sa.Column(sa.Integer, primary_key=True, autoincrement=False),
             a=sa.Column(sa.Integer),
